@@ -84,6 +84,62 @@ fn public_nonce(instr: &str, bytes: &[u8]) -> Option<String> {
     None
 }
 
+/// Recover the prover's nonces from one fresh proof, using the witness the op was built from and the
+/// challenges recorded while verifying it: for a real branch `y = z - c*witness`; for a simulated branch the
+/// randomly drawn responses / sub-challenge themselves. Every one of them must be a fresh, non-zero draw.
+fn recovered_nonces(instr: &str, args: &[&str], bytes: &[u8]) -> Option<Vec<(String, Vec<u8>)>> {
+    use curve25519_dalek::scalar::Scalar;
+    let cl = ctx_len(instr);
+    let sc_at = |o: usize| -> Option<Scalar> { Option::<Scalar>::from(Scalar::from_canonical_bytes(bytes[cl + o..cl + o + 32].try_into().ok()?)) };
+    let _ = crate::sigma::take_trace();
+    let out = crate::sigma::op_verify(&[instr, &hex(bytes)]);
+    let mut tr = std::collections::HashMap::new();
+    for kv in out.split(" ~").nth(1).unwrap_or("").split(',') {
+        let mut it = kv.split('=');
+        if let (Some(k), Some(v)) = (it.next(), it.next()) {
+            if let Some(b) = unhex(v).and_then(|b| arr::<32>(&b)) { tr.insert(k.to_string(), Scalar::from_bytes_mod_order(b)); }
+        }
+    }
+    let c = *tr.get("c")?;
+    let sc = |i: usize| -> Option<Scalar> { scalar(args.get(i)?) };
+    let amt = |i: usize| -> Option<Scalar> { Some(Scalar::from(args.get(i)?.parse::<u64>().ok()?)) };
+    let mut v: Vec<(&str, Scalar)> = vec![];
+    match instr {
+        "zero" => v.push(("y", sc_at(64)? - c * sc(0)?)),
+        "pubkey" => v.push(("y", sc_at(32)? - c * sc(0)?.invert())),
+        "ctct" => { v.push(("y_s", sc_at(128)? - c * sc(0)?)); v.push(("y_x", sc_at(160)? - c * amt(8)?)); v.push(("y_r", sc_at(192)? - c * sc(7)?)); }
+        "ctcmt" => { v.push(("y_s", sc_at(96)? - c * sc(0)?)); v.push(("y_x", sc_at(128)? - c * amt(6)?)); v.push(("y_r", sc_at(160)? - c * sc(5)?)); }
+        "val2" | "val3" => {
+            let n = if instr == "val3" { 3 } else { 2 };
+            let (ai, ri) = if n == 3 { (7, 8) } else { (5, 6) };
+            v.push(("y_r", sc_at(32 * (n + 1))? - c * sc(ri)?));
+            v.push(("y_x", sc_at(32 * (n + 1) + 32)? - c * amt(ai)?));
+        }
+        "bval2" | "bval3" => {
+            let n = if instr == "bval3" { 3 } else { 2 };
+            let t = *tr.get("t")?;
+            let (al, ah, rl, rh) = if n == 3 { (11, 12, 13, 14) } else { (8, 9, 10, 11) };
+            v.push(("y_r", sc_at(32 * (n + 1))? - c * (sc(rl)? + t * sc(rh)?)));
+            v.push(("y_x", sc_at(32 * (n + 1) + 32)? - c * (amt(al)? + t * amt(ah)?)));
+        }
+        "cap" => {
+            let (mx, pct): (u64, u64) = (args.get(3)?.parse().ok()?, args.get(4)?.parse().ok()?);
+            let (z_max, c_max, z_x, z_d, z_c) = (sc_at(32)?, sc_at(64)?, sc_at(160)?, sc_at(192)?, sc_at(224)?);
+            let c_eq = c - c_max;
+            if pct < mx {
+                let _ = z_max; // simulated z_max, c_max are proof fields already compared
+                v.push(("y_x", z_x - c_eq * amt(5)?)); v.push(("y_delta", z_d - c_eq * sc(7)?)); v.push(("y_claimed", z_c - c_eq * sc(8)?));
+            } else {
+                v.push(("y_max", z_max - c_max * sc(6)?));
+                let _ = (z_x, z_d, z_c); // simulated responses are proof fields already compared
+                v.push(("sim_c_eq", c_eq));
+            }
+        }
+        _ => return None,
+    }
+    Some(v.into_iter().map(|(n, s)| (format!("nonce:{}", n), s.to_bytes().to_vec())).collect())
+}
+
 pub fn op_fresh(a: &[&str]) -> String {
     let Some((what, rest)) = a.split_first() else { return "bad-op".into() };
     let Some((count, args)) = rest.split_last() else { return "bad-op".into() };
@@ -142,7 +198,16 @@ pub fn op_fresh(a: &[&str]) -> String {
                     if let Some(leak) = public_nonce(instr, &b) { return leak; }
                 }
                 let cl = ctx_len(instr);
-                fresh_fields(instr).iter().map(|o| (format!("proof+{}", o), b[cl + o..cl + o + 32].to_vec())).collect()
+                let mut f: Vec<(String, Vec<u8>)> = fresh_fields(instr).iter().map(|o| (format!("proof+{}", o), b[cl + o..cl + o + 32].to_vec())).collect();
+                // the nonces themselves (recovered with the witness): each position fresh, none zero
+                match recovered_nonces(instr, args, &b) {
+                    Some(ns) => {
+                        if let Some((n, _)) = ns.iter().find(|(_, v)| v.iter().all(|x| *x == 0)) { return format!("zero-nonce:{}", n); }
+                        f.extend(ns);
+                    }
+                    None => return "nonce-recovery-failed".into(),
+                }
+                f
             }
         };
         samples.push(fields);
